@@ -331,6 +331,9 @@ struct Thunk {
         if (t.kind == 0) ex.small_scope(t.palette, t.len, t.first);
         else if (t.kind == 1) ex.run_family(t.l0);
         else if (t.kind == 5) ex.page_family();
+        else if (t.kind == 6) {
+            for (long a : {1L, 2L, 3L}) for (long L : {long(E) + 1, 2 * long(E) + 2, 4 * long(E) + 4, 200L}) for (long so : {-1L, 0L, 50L}) { if (r.deadline_passed()) break; ks::FamilySpec s; s.kind = "tworuns"; s.n = 32768; s.chunks = t.p; s.seam = t.seam; s.width = a; s.rep = L; s.word = so; ex.large_family(s); }
+        }
         else if (t.kind == 2) {
             for (long w = t.w_lo; w < t.w_hi && !r.deadline_passed(); w += 4) { ks::FamilySpec s; s.kind = "seam"; s.n = 32768; s.chunks = t.p; s.seam = 0; s.word = w; if (w == t.w_lo + 8) r.sample(ex.case_of("family=" + s.str(), "")); ex.large_family(s); }
         } else if (t.kind == 4) {
@@ -400,6 +403,7 @@ int main(int argc, char **argv) {
             for (long p : {2L, 20L}) {
                 for (long w = 0; w < 4096; w += 256) { Task t{int(c), 2, 0, 0, 0, 0}; t.p = p; t.w_lo = w; t.w_hi = w + 256; tasks.push_back(t); }
                 for (long j = 0; j < p; ++j) { if (p == 20 && !thorough && j > 1 && j < 18) continue; for (long len : {1L, 2L}) { if (j + len > p) continue; Task t{int(c), 3, 0, 0, 0, 0}; t.p = p; t.seam = j; t.rep = len; tasks.push_back(t); } }
+                for (long j : {0L, p - 2}) { Task t{int(c), 6, 0, 0, 0, 0}; t.p = p; t.seam = j; tasks.push_back(t); }   // two runs meeting just before a chunk end
             }
         }
     }
